@@ -243,6 +243,53 @@ def reach_params(has_type: bool, u_min: bool, u_max: bool, u_sp: bool, u_dir: bo
     return params_check(has_type, u_min, u_max, u_sp, u_dir, uniform, rows, mode, zero)
 
 
+CAST_DT = ['int8', 'int16', 'uint8', 'uint16']
+
+
+def cast_index_check(a, b, c, n, cdi):
+    """The index channel has a cast dtype: the rows WRITTEN are the cast values (numpy's astype: narrowing wraps), and
+    INDEX-MIN / INDEX-MAX (and the spacing test) are about those, not about the source values."""
+    import numpy as _np
+    with untraced():
+        reset_global_state()
+        ch = ChannelItem('IDX', ChannelSet(), origin_reference=1, cast_dtype=getattr(_np, CAST_DT[cdi]))
+        fr = FrameItem('FR', FrameSet(), channels=(ch,), origin_reference=1)
+        fr.index_type.value = 'BOREHOLE-DEPTH'
+    vals = [a, b, c][:n]
+    arr = npv.VArr(vals, npv.IDtype('int32'))
+    fr._setup_frame_params_from_data(FakeData(arr))
+    cdt = npv.IDtype(CAST_DT[cdi])
+    written = [npv.wrap(v, cdt) for v in vals]
+    lo = written[0]
+    hi = written[0]
+    for v in written:
+        if v < lo:
+            lo = v
+        if v > hi:
+            hi = v
+    if fr.index_min.value != lo or fr.index_max.value != hi:
+        return 1
+    return 0
+
+
+def ob_cast_index(a: int, b: int, c: int, n: int, cdi: int) -> int:
+    """
+    pre: -2147483648 <= a <= 2147483647 and -2147483648 <= b <= 2147483647 and -2147483648 <= c <= 2147483647
+    pre: 1 <= n <= 3 and 0 <= cdi < 4
+    post: _ == 0
+    """
+    return cast_index_check(a, b, c, n, cdi)
+
+
+def reach_cast_index(a: int, b: int, c: int, n: int, cdi: int) -> int:
+    """
+    pre: -2147483648 <= a <= 2147483647 and -2147483648 <= b <= 2147483647 and -2147483648 <= c <= 2147483647
+    pre: 1 <= n <= 3 and 0 <= cdi < 4
+    post: _ != 0
+    """
+    return cast_index_check(a, b, c, n, cdi)
+
+
 def second_setup_check(has_type, rows1, rows2):
     """Two successive set-ups of one frame with different data: the derived values reflect the second data."""
     with untraced():
